@@ -131,7 +131,7 @@ def raw_views(chk, P):
     if r0 is None or r1 is None:
         return
     (I0, cp0), (I1, cp1) = r0, r1
-    raw0, raw1 = cp0.attrs["_config_parser"], cp1.attrs["_config_parser"]
+    raw0, raw1 = I0.getattr(cp0, "raw_config_parser"), I1.getattr(cp1, "raw_config_parser")
     var_names = [k.v for k, _ in raw1.attrs["_defaults"].items.values()]
     site = P.cls(CP, "_RawConfigParser").lookup("options").site() if P.cls(CP, "_RawConfigParser").lookup("options") else P.module(CP).relpath
     for k, d in raw0.attrs["_sections"].items.values():
